@@ -20,6 +20,9 @@ import (
 type frameCase struct {
 	F   ref.Frame `json:"frame"`
 	Key evid.Hex  `json:"key"` // join-accept encryption key
+	// data frames: after decoding, the FOpts of the decoded value are replaced by these commands (another length)
+	// and the value is encoded again: a decoded frame is a frame value like any other
+	AltFOpts evid.Hex `json:"alt_fopts,omitempty"`
 }
 
 func decodeBack(b []byte, text bool) (*ref.Frame, error) {
@@ -105,6 +108,28 @@ func checkFrame(c frameCase) evid.Outcome {
 			}
 		}
 	}
+	if ref.IsData(f.MType) && c.AltFOpts != nil && !(f.FPort == 0 && len(c.AltFOpts) > 0) {
+		// decode, change the FOpts of the decoded value, encode again
+		var q lorawan.PHYPayload
+		if err := q.UnmarshalBinary(append([]byte{}, want...)); err != nil {
+			return evid.Fail("decoding the encoder's own output %x fails: %v", want, err)
+		}
+		g := *f
+		g.FOpts = c.AltFOpts
+		g.FCnt &= 0xffff
+		alt, err := gen.ToLib(&g, true)
+		if err != nil {
+			return evid.Outcome{Skip: true}
+		}
+		q.MACPayload.(*lorawan.MACPayload).FHDR.FOpts = alt.MACPayload.(*lorawan.MACPayload).FHDR.FOpts
+		b, err := q.MarshalBinary()
+		if err != nil {
+			return evid.Fail("a decoded frame whose FOpts were replaced (%d -> %d bytes) cannot be encoded: %v", len(f.FOpts), len(g.FOpts), err)
+		}
+		if w := g.Encode(); !bytes.Equal(b, w) {
+			return evid.Fail("a frame decoded from %x whose FOpts were then replaced by %x (%d -> %d bytes) encodes to %x, wire model gives %x", want, []byte(c.AltFOpts), len(f.FOpts), len(g.FOpts), b, w)
+		}
+	}
 	if f.MType == ref.MTJoinAccept {
 		var key lorawan.AES128Key
 		copy(key[:], c.Key)
@@ -162,7 +187,14 @@ func boolInt(b bool) int {
 }
 
 func genFrame(t *rapid.T) frameCase {
-	return frameCase{F: *gen.AnyFrame(t), Key: gen.Bytes(t, "key", 16)}
+	c := frameCase{F: *gen.AnyFrame(t), Key: gen.Bytes(t, "key", 16)}
+	if ref.IsData(c.F.MType) {
+		c.AltFOpts = gen.CmdBytes(t, "altfopts", ref.IsUplinkMType(c.F.MType), rapid.IntRange(0, 15).Draw(t, "altlen"))
+		if c.AltFOpts == nil {
+			c.AltFOpts = evid.Hex{}
+		}
+	}
+	return c
 }
 
 // fillCmds gives n bytes of valid commands for the direction without randomness.
@@ -200,7 +232,7 @@ func TestProp(t *testing.T) {
 				up := ref.IsUplinkMType(mt)
 				for ol := 0; ol <= 15; ol++ {
 					base := ref.Frame{MType: mt, DevAddr: 0x01020304 * uint32(ol+1), FCnt: uint32(ol)*0x1357 + 0x0102, ACK: ol%2 == 0, ADR: ol%3 == 0, FOpts: fillCmds(up, ol, ol), FPort: -1}
-					emit(frameCase{F: base})
+					emit(frameCase{F: base, AltFOpts: fillCmds(up, (ol+7)%16, ol+1)})
 					for n := 0; n <= 242; n++ {
 						f := base
 						f.FPort = 1 + (n+ol)%255
@@ -208,7 +240,7 @@ func TestProp(t *testing.T) {
 						for i := range f.FRM {
 							f.FRM[i] = byte(i + n)
 						}
-						emit(frameCase{F: f})
+						emit(frameCase{F: f, AltFOpts: append(evid.Hex{}, fillCmds(up, (ol+n)%16, n)...)})
 						if ol == 0 {
 							g := base
 							g.FPort = 0
@@ -221,6 +253,6 @@ func TestProp(t *testing.T) {
 		}, checkFrame)
 
 	evid.Rapid(r, t, "frames",
-		"rapid: MType uniform over the 8 types; data frames with all FCtrl flags, boundary-biased 32-bit FCnt, FOpts = generated command sequence of a drawn exact length 0..15, FPort absent/0/1..255, FRMPayload 0..242 bytes (commands on port 0); join-request, rejoin 0/1/2, join-accept (CFList absent/channels/masks, through encrypt->decode->decrypt), proprietary. Oracle: encoder output == wire model; decode (binary and base64) + command decode gives a frame standing for the same bytes. Non-trivial: data frame with FOpts, FPort and >16 payload bytes, or join/rejoin, or join-accept with CFList.",
+		"rapid: MType uniform over the 8 types; data frames with all FCtrl flags, boundary-biased 32-bit FCnt, FOpts = generated command sequence of a drawn exact length 0..15, FPort absent/0/1..255, FRMPayload 0..242 bytes (commands on port 0); join-request, rejoin 0/1/2, join-accept (CFList absent/channels/masks, through encrypt->decode->decrypt), proprietary. Oracle: encoder output == wire model; decode (binary and base64) + command decode gives a frame standing for the same bytes; a decoded data frame whose FOpts are then replaced by another command sequence (another length) encodes to the wire model of the changed frame. Non-trivial: data frame with FOpts, FPort and >16 payload bytes, or join/rejoin, or join-accept with CFList.",
 		120000, 6000000, genFrame, checkFrame)
 }
